@@ -31,7 +31,7 @@ use crate::{
 // ---------------------------------------------------------------------------------------------------------------
 // (a) op histories, Ristretto (the instantiation that owns the process-wide cells)
 
-pub const OPS: [&str; 14] = [
+pub const OPS: [&str; 18] = [
     "params(2,1)",
     "params(2,2)",
     "params(4,1)",
@@ -46,6 +46,10 @@ pub const OPS: [&str; 14] = [
     "batch-undecodable2",
     "pedersen6",
     "drop-all",
+    "seeded-prove6",
+    "recover6",
+    "recover6-other-seed",
+    "params(2,16)",
 ];
 
 fn digest(parts: &[&[u8]]) -> Vec<u8> {
@@ -110,10 +114,12 @@ fn run_op<P: G>(op: &str, kept: &mut Vec<RangeParameters<P>>) -> Vec<u8> {
     let cfg_a = Cfg::new(2, 1, 1, 1);
     let cfg_b = Cfg::new(4, 2, 2, 2);
     match op {
-        "params(2,1)" | "params(2,2)" | "params(4,1)" => {
+        "params(2,1)" | "params(2,2)" | "params(4,1)" | "params(2,16)" => {
             let (n, c) = match op {
                 "params(2,1)" => (2, 1),
                 "params(2,2)" => (2, 2),
+                // many parties: a constructor that derives the parties' chains out of order or concurrently shows here
+                "params(2,16)" => (2, 16),
                 _ => (4, 1),
             };
             let p = P::params(n, c, P::pc_gens(2)).unwrap();
@@ -125,7 +131,7 @@ fn run_op<P: G>(op: &str, kept: &mut Vec<RangeParameters<P>>) -> Vec<u8> {
             let cfg = if op == "proveA" { cfg_a } else { cfg_b };
             let wit = Wit::default_for(&cfg);
             let built = build::<P>(&cfg, &wit).honest();
-            let proof = lib_prove(&built, &CTX_A, &mut HRng::chacha(1)).honest();
+            let proof = lib_prove_honest(&built, &CTX_A, &mut HRng::chacha(1));
             P::to_bytes(&proof)
         },
         "prove-bad-witness" => {
@@ -144,7 +150,7 @@ fn run_op<P: G>(op: &str, kept: &mut Vec<RangeParameters<P>>) -> Vec<u8> {
         "verify-valid" | "verify-invalid" => {
             let wit = Wit::default_for(&cfg_b);
             let built = build::<P>(&cfg_b, &wit).honest();
-            let proof = lib_prove(&built, &CTX_A, &mut HRng::chacha(2)).honest();
+            let proof = lib_prove_honest(&built, &CTX_A, &mut HRng::chacha(2));
             let st = if op == "verify-valid" {
                 built.statement.clone()
             } else {
@@ -158,7 +164,7 @@ fn run_op<P: G>(op: &str, kept: &mut Vec<RangeParameters<P>>) -> Vec<u8> {
             let mut wit = Wit::default_for(&cfg_a);
             wit.seed = Some(seed_scalar(1));
             let built = build::<P>(&cfg_a, &wit).honest();
-            let proof = lib_prove(&built, &CTX_A, &mut HRng::chacha(3)).honest();
+            let proof = lib_prove_honest(&built, &CTX_A, &mut HRng::chacha(3));
             verify_bytes(&[built.statement.clone()], &[proof], &[CTX_A], VerifyAction::RecoverAndVerify)
         },
         "batch2" => {
@@ -167,15 +173,15 @@ fn run_op<P: G>(op: &str, kept: &mut Vec<RangeParameters<P>>) -> Vec<u8> {
             let cfg_c = Cfg::new(2, 2, 2, 1);
             let wc = Wit::default_for(&cfg_c);
             let bc = build::<P>(&cfg_c, &wc).honest();
-            let pa = lib_prove(&ba, &CTX_A, &mut HRng::chacha(4)).honest();
-            let pc = lib_prove(&bc, &contexts()[3], &mut HRng::chacha(5)).honest();
+            let pa = lib_prove_honest(&ba, &CTX_A, &mut HRng::chacha(4));
+            let pc = lib_prove_honest(&bc, &contexts()[3], &mut HRng::chacha(5));
             verify_bytes(&[ba.statement.clone(), bc.statement.clone()], &[pa, pc], &[CTX_A, contexts()[3]], VerifyAction::VerifyOnly)
         },
         "batch-malformed2" | "batch-undecodable2" => {
             // a batch that is abandoned half way: the second member has the wrong round count / an undecodable point
             let wa = Wit::default_for(&cfg_a);
             let ba = build::<P>(&cfg_a, &wa).honest();
-            let pa = lib_prove(&ba, &CTX_A, &mut HRng::chacha(4)).honest();
+            let pa = lib_prove_honest(&ba, &CTX_A, &mut HRng::chacha(4));
             let mut rp = ref_proof_of(&pa).unwrap();
             if op == "batch-malformed2" {
                 let (l, r) = (rp.l[0], rp.r[0]);
@@ -186,6 +192,32 @@ fn run_op<P: G>(op: &str, kept: &mut Vec<RangeParameters<P>>) -> Vec<u8> {
             }
             let bad = P::from_bytes(&refbp::ref_encode(&rp)).unwrap();
             verify_bytes(&[ba.statement.clone(), ba.statement.clone()], &[pa, bad], &[CTX_A, CTX_A], VerifyAction::VerifyOnly)
+        },
+        "seeded-prove6" => {
+            // every nonce index in use: degree 6, two rounds, seed-derived nonces
+            let cfg = Cfg::new(4, 1, 1, 6);
+            let mut wit = Wit::default_for(&cfg);
+            wit.seed = Some(seed_scalar(6));
+            let built = build::<P>(&cfg, &wit).honest();
+            let proof = lib_prove_honest(&built, &CTX_A, &mut HRng::chacha(7));
+            P::to_bytes(&proof)
+        },
+        "recover6" | "recover6-other-seed" => {
+            // recovery from a proof this process did not make (the reference prover made it), in both recovering modes
+            let cfg = Cfg::new(4, 1, 1, 6);
+            let (mut wit, bytes) = ref_made_proof_seeded(4, 6, Some(seed_scalar(6)));
+            if op == "recover6-other-seed" {
+                wit.seed = Some(seed_scalar(16));
+            }
+            let built = build::<P>(&cfg, &wit).honest();
+            let mut out = Vec::new();
+            for mode in [VerifyAction::RecoverOnly, VerifyAction::RecoverAndVerify] {
+                match P::from_bytes(&bytes) {
+                    Ok(proof) => out.extend(verify_bytes(&[built.statement.clone()], &[proof], &[CTX_A], mode)),
+                    Err(e) => out.extend(format!("DECODE-ERR:{}", crate::api::err_name(&e)).into_bytes()),
+                }
+            }
+            out
         },
         "pedersen6" => {
             let pc = P::pc_gens(6);
@@ -479,8 +511,14 @@ fn ref_pedersen(d: usize) -> PedersenGens<RistrettoPoint> {
 
 /// A proof made by the reference prover under the reference generators (touches no library static)
 fn ref_made_proof(n: usize, d: usize) -> (Wit, Vec<u8>) {
+    ref_made_proof_seeded(n, d, None)
+}
+
+/// A proof made by the reference prover (no library state is touched); with a seed its nonces are the seed-derived ones
+fn ref_made_proof_seeded(n: usize, d: usize, seed: Option<Scalar>) -> (Wit, Vec<u8>) {
     let cfg = Cfg::new(n, 1, 1, d);
-    let wit = Wit::default_for(&cfg);
+    let mut wit = Wit::default_for(&cfg);
+    wit.seed = seed;
     let pc = ref_pedersen(d);
     let gens = refbp::ref_gens::<RistrettoPoint>(n, 1);
     let commitments: Vec<RistrettoPoint> = wit
@@ -504,7 +542,10 @@ fn ref_made_proof(n: usize, d: usize) -> (Wit, Vec<u8>) {
         commitments,
         promises: wit.promises.clone(),
     };
-    let nonces = Nonces {
+    let nonces = if let Some(sd) = &seed {
+        Nonces::from_seed(sd, cfg.rounds(), d, wide_scalar("rr1", 0, 0), wide_scalar("rs1", 0, 0))
+    } else {
+        Nonces {
         alpha: (0..d).map(|k| wide_scalar("ra", k as u64, 0)).collect(),
         dl: (0..cfg.rounds()).map(|j| (0..d).map(|k| wide_scalar("rl", j as u64, k as u64)).collect()).collect(),
         dr: (0..cfg.rounds()).map(|j| (0..d).map(|k| wide_scalar("rr", j as u64, k as u64)).collect()).collect(),
@@ -512,6 +553,7 @@ fn ref_made_proof(n: usize, d: usize) -> (Wit, Vec<u8>) {
         eta: (0..d).map(|k| wide_scalar("re", k as u64, 0)).collect(),
         r: wide_scalar("rr1", 0, 0),
         s: wide_scalar("rs1", 0, 0),
+        }
     };
     let digits = refbp::honest_digits(n, &wit.values, &wit.promises).unwrap();
     let mut t = CTX_A.transcript();
@@ -535,7 +577,7 @@ pub fn child_bodies(name: &str) -> Option<Vec<Body>> {
             let wit = Wit::default_for(&cfg);
             let pc = create_pedersen_gens_with_extension_degree(ext(2));
             let built = build_with_pc::<RistrettoPoint>(&cfg, &wit, pc).honest();
-            let proof = lib_prove(&built, &CTX_A, &mut HRng::chacha(8)).honest();
+            let proof = lib_prove_honest(&built, &CTX_A, &mut HRng::chacha(8));
             RistrettoPoint::to_bytes(&proof)
         })
     };
@@ -642,7 +684,7 @@ fn source_scan() -> Value {
 }
 
 pub fn run(rep: &mut Report) {
-    rep.rule = "(a) every sequence over the 14-op alphabet {build params x3, prove A/B, prove with a witness that does not open the commitment, verify valid/invalid, seeded recover, batch of two, batch abandoned at \
+    rep.rule = "(a) every sequence over the 18-op alphabet {build params for 16 parties, degree-6 seeded prove, recovery (right / other seed) from a degree-6 proof made elsewhere, build params x3, prove A/B, prove with a witness that does not open the commitment, verify valid/invalid, seeded recover, batch of two, batch abandoned at \
                 its second member (wrong round count / undecodable point), pedersen gens, drop-all} of length <= 3 (thorough 4), one fresh process per sequence, each op's serialised result against \
                 its result alone in a fresh process (and a second fresh process); (b) every pair (thorough: also triples) of ops {prove A, \
                 prove B, verify valid, verify invalid, clone+drop params, build other capacity} on threads sharing one parameter object, \
